@@ -57,6 +57,28 @@ Bases == {[tag |-> 4325387, ty |-> 1, v |-> <<[tag |-> 4325382, ty |-> 7, v |-> 
                                               [tag |-> 4325381, ty |-> 6, v |-> TRUE]>>],
           [tag |-> 4325379, ty |-> 4, v |-> [neg |-> TRUE, mag |-> <<5>>]],
           [tag |-> 4325384, ty |-> 9, v |-> <<0,0,0,0,101,83,241,0>>]}
+\* two real messages (tags of the KMIP message structures): a request of two items (Destroy, Get) and a response of one item
+Txt(g, x) == [tag |-> g, ty |-> 7, v |-> x]
+Int(g, n) == [tag |-> g, ty |-> 2, v |-> <<0, 0, 0, n>>]
+Enu(g, n) == [tag |-> g, ty |-> 5, v |-> <<0, 0, 0, n>>]
+Str(g, kids) == [tag |-> g, ty |-> 1, v |-> kids]
+PVer == Str(4325481, <<Int(4325482, 1), Int(4325483, 2)>>)
+ReqItem(op, id) == Str(4325391, <<Enu(4325468, op), Str(4325497, <<Txt(4325524, id)>>)>>)
+ReqBase == Str(4325496, <<Str(4325495, <<PVer, Int(4325389, 2)>>), ReqItem(20, <<97, 98>>), ReqItem(10, <<99, 100>>)>>)
+RespBase == Str(4325499, <<Str(4325498, <<PVer, [tag |-> 4325522, ty |-> 9, v |-> <<0,0,0,0,101,83,241,0>>], Int(4325389, 1)>>),
+                           Str(4325391, <<Enu(4325468, 20), Enu(4325503, 0), Str(4325500, <<Txt(4325524, <<97, 98>>)>>)>>)>>)
+MsgBases == {ReqBase, RespBase}
+\* structural mutations of a tree: one child dropped, duplicated or swapped with its neighbour, at any depth (re-encoded: well-formed TTLV
+\* that a typed decoder may find incomplete or out of order)
+RemoveAt(q, i) == [j \in 1..(Len(q) - 1) |-> IF j < i THEN q[j] ELSE q[j + 1]]
+DupAt(q, i) == [j \in 1..(Len(q) + 1) |-> IF j <= i THEN q[j] ELSE q[j - 1]]
+SwapAt(q, i) == [j \in 1..Len(q) |-> IF j = i THEN q[i + 1] ELSE IF j = i + 1 THEN q[i] ELSE q[j]]
+RECURSIVE Restructured(_)
+Restructured(t) ==
+  IF t.ty # 1 THEN {}
+  ELSE {[t EXCEPT !.v = RemoveAt(t.v, i)] : i \in 1..Len(t.v)} \cup {[t EXCEPT !.v = DupAt(t.v, i)] : i \in 1..Len(t.v)}
+       \cup {[t EXCEPT !.v = SwapAt(t.v, i)] : i \in 1..(Len(t.v) - 1)}
+       \cup UNION {{[t EXCEPT !.v = [t.v EXCEPT ![i] = d]] : d \in Restructured(t.v[i])} : i \in 1..Len(t.v)}
 L2ByType(ty) == CHOOSE l \in L2 : l.ty = ty
 AllTypes == [tag |-> 4325389, ty |-> 1, v |-> <<[tag |-> 4325388, ty |-> 1, v |-> [i \in 1..9 |-> L2ByType(i + 1)]], [tag |-> 4325387, ty |-> 1, v |-> <<>>]>>]
 DeepBases == Bases \cup L2 \cup S1small \cup {AllTypes}
@@ -80,7 +102,8 @@ Mutants ==
     \cup UNION {{SetBytes(b, h, U24(g)) : g \in {0, 1}} : h \in HeadersAt(b, 1, Len(b))}
     \cup {b \o <<0>>, b \o Zeros(8), b \o b}
     \cup (IF Deep THEN UNION {{SetBytes(b, i, <<x>>) : x \in {0, 1, 128, 255}} : i \in 1..Len(b)} ELSE {})     \* every byte forced to a boundary value
-  : t \in (IF Deep THEN DeepBases ELSE Bases) }
+  : t \in (IF Deep THEN DeepBases ELSE Bases) \cup MsgBases }
+  \cup UNION {{Enc(d) : d \in Restructured(t)} : t \in MsgBases}
 
 \* ---- twins (C02): two inputs that agree on the declared extent of the top-level item and differ in every byte after it; what a decoder
 \* returns may depend on the declared extent only (the library ignores what follows the top-level item)
